@@ -13,6 +13,7 @@ type Leaf struct {
 	Name string // suffix that identifies the leaf inside its value, e.g. "", "$len", "$arr", ".Option"
 	Sort string
 	Ref  bool // the leaf holds a heap reference (pointer, map, chan, func, interface)
+	Tag  string // dynamic type tag of the referenced object ("" = unknown, e.g. interfaces)
 }
 
 type Shape []Leaf
@@ -38,34 +39,47 @@ func shapeOf(t types.Type) Shape {
 	return s
 }
 
+// refTag names the dynamic type of the object a reference of static type t points to.
+func refTag(t types.Type) string {
+	switch u := t.Underlying().(type) {
+	case *types.Pointer:
+		return typeKey(u.Elem())
+	case *types.Map:
+		return typeKey(u)
+	case *types.Chan:
+		return typeKey(u)
+	}
+	return ""
+}
+
 func shapeOf1(t types.Type) Shape {
 	switch u := t.Underlying().(type) {
 	case *types.Basic:
 		switch {
 		case u.Info()&types.IsBoolean != 0:
-			return Shape{{"", sBool, false}}
+			return Shape{{Name: "", Sort: sBool}}
 		case u.Info()&types.IsInteger != 0:
-			return Shape{{"", sInt, false}}
+			return Shape{{Name: "", Sort: sInt}}
 		case u.Info()&types.IsString != 0:
-			return Shape{{"", sString, false}}
+			return Shape{{Name: "", Sort: sString}}
 		case u.Info()&types.IsFloat != 0:
-			return Shape{{"", sF64, false}}
+			return Shape{{Name: "", Sort: sF64}}
 		case u.Kind() == types.UnsafePointer, u.Kind() == types.UntypedNil:
-			return Shape{{"", sInt, false}}
+			return Shape{{Name: "", Sort: sInt}}
 		}
-		return Shape{{"", sInt, false}}
+		return Shape{{Name: "", Sort: sInt}}
 	case *types.Pointer, *types.Map, *types.Chan, *types.Signature, *types.Interface:
-		return Shape{{"", sInt, true}}
+		return Shape{{"", sInt, true, refTag(t)}}
 	case *types.Slice:
-		sh := Shape{{"$len", sInt, false}, {"$nil", sBool, false}}
+		sh := Shape{{Name: "$len", Sort: sInt}, {Name: "$nil", Sort: sBool}}
 		for _, l := range shapeOf(u.Elem()) {
-			sh = append(sh, Leaf{"$arr" + l.Name, arrSort(sInt, l.Sort), false})
+			sh = append(sh, Leaf{Name: "$arr" + l.Name, Sort: arrSort(sInt, l.Sort)})
 		}
 		return sh
 	case *types.Array:
 		sh := Shape{}
 		for _, l := range shapeOf(u.Elem()) {
-			sh = append(sh, Leaf{"$arr" + l.Name, arrSort(sInt, l.Sort), false})
+			sh = append(sh, Leaf{Name: "$arr" + l.Name, Sort: arrSort(sInt, l.Sort)})
 		}
 		return sh
 	case *types.Struct:
@@ -73,24 +87,24 @@ func shapeOf1(t types.Type) Shape {
 		for i := 0; i < u.NumFields(); i++ {
 			f := u.Field(i)
 			for _, l := range shapeOf(f.Type()) {
-				sh = append(sh, Leaf{"." + f.Name() + l.Name, l.Sort, l.Ref})
+				sh = append(sh, Leaf{"." + f.Name() + l.Name, l.Sort, l.Ref, l.Tag})
 			}
 		}
 		if len(sh) == 0 {
 			// empty struct: keep one dummy leaf so that values are never empty tuples
-			sh = Shape{{".$unit", sInt, false}}
+			sh = Shape{{Name: ".$unit", Sort: sInt}}
 		}
 		return sh
 	case *types.Tuple:
 		sh := Shape{}
 		for i := 0; i < u.Len(); i++ {
 			for _, l := range shapeOf(u.At(i).Type()) {
-				sh = append(sh, Leaf{fmt.Sprintf("#%d%s", i, l.Name), l.Sort, l.Ref})
+				sh = append(sh, Leaf{fmt.Sprintf("#%d%s", i, l.Name), l.Sort, l.Ref, l.Tag})
 			}
 		}
 		return sh
 	}
-	return Shape{{"", sInt, false}}
+	return Shape{{Name: "", Sort: sInt}}
 }
 
 // fieldRange returns the [lo,hi) leaf range of field i inside struct shape.
@@ -310,7 +324,7 @@ func sym(s string) string {
 	simple := true
 	for i := 0; i < len(s); i++ {
 		c := s[i]
-		if !(c >= 'a' && c <= 'z' || c >= 'A' && c <= 'Z' || c >= '0' && c <= '9' || c == '_' || c == '.' || c == '$' || c == '!' || c == '@' || c == '#' || c == '%' || c == '~') {
+		if !(c >= 'a' && c <= 'z' || c >= 'A' && c <= 'Z' || c >= '0' && c <= '9' || c == '_' || c == '.' || c == '$' || c == '!' || c == '~') {
 			simple = false
 		}
 	}
